@@ -32,35 +32,60 @@ def v_ladder(ctx, tname, adtp, maxn):
     it = f.hir_fn("try_from_floats", self_ty=adtp)
     ctx.fn(it)
     body = strip(it["body"])
-    def is_step(s_):
-        m_ = strip(s_["init"]) if s_.get("init") else None
-        return bool(m_) and m_["k"] == "Match" and strip(m_["scrut"])["k"] == "MethodCall" and strip(m_["scrut"])["method"] == "next"
+    def next_call(e_):
+        e_ = strip(e_) if e_ else None
+        return bool(e_) and e_["k"] == "MethodCall" and e_["method"] == "next"
+
+    def some_binding(pat):
+        try:
+            if hir.pat_variants(pat) != {"Some"}:
+                return None
+        except hir.Unrecognised:
+            return None
+        b_ = hir.pat_bindings(pat) or [fd["pat"].get("name") for fd in pat.get("fields", [])]
+        return b_[0] if len(b_) == 1 else None
+
+    # a ladder step, in either spelling, is (validated name, item validated?, expression returned when the item is missing):
+    #   let x = match it.next() { Some(v) => *v.try_validate_01()?, None => return Ok(..) };
+    #   let Some(v) = it.next() else { return Ok(..) };  let x = *v.try_validate_01()?;
     all_lets = [s for s in body["stmts"] if s["k"] == "Let"]
-    lets = [s for s in all_lets if is_step(s)]
-    # other `let`s are named temporaries: read through (`let t = Self::new_triple(p, d, q); Ok(t)`)
-    temps = hir.let_env({"k": "Block", "stmts": [s for s in all_lets if not is_step(s)], "expr": None})
-    nexts = hir.find_calls(it["body"], "next")
-    ctx.ob("V-CTOR", "%s::try_from_floats reads at most %d items" % (tname, maxn), len(nexts) == maxn and len(lets) == maxn, "%d next() calls" % len(nexts))
-    bound = []
-    for k, s in enumerate(lets):
-        m = strip(s["init"])
-        ok = m["k"] == "Match" and strip(m["scrut"])["k"] == "MethodCall" and strip(m["scrut"])["method"] == "next"
-        some_ok = none_ok = False
-        if ok:
-            for v, arm, pat in hir.arms_by_variant(m):
+    steps, used, raw_pending = [], set(), None
+    for idx_, s in enumerate(all_lets):
+        init = strip(s["init"]) if s.get("init") else None
+        if init is not None and init["k"] == "Match" and next_call(init["scrut"]):
+            some_ok, none_ret = False, None
+            for v, arm, pat in hir.arms_by_variant(init):
                 if v == "Some":
-                    b = hir.pat_bindings(pat)
-                    some_ok = validated_param(arm["body"], "try_validate_01") == b[0]
+                    some_ok = validated_param(arm["body"], "try_validate_01") == some_binding(pat)
                 if v == "None":
-                    r = strip(arm["body"])
-                    if r["k"] == "Ret":
-                        c = strip(r["e"])
-                        if c["k"] == "Call" and hir.callee_name(c) == "Ok":
-                            inner = strip(c["args"][0])
-                            none_ok = inner["k"] == "Call" and hir.callee_name(inner) == NAMES[k] and [field_path(a) for a in inner["args"]] == [(x,) for x in bound]
-        ctx.ob("V-CTOR", "%s::try_from_floats step %d" % (tname, k), ok and some_ok and none_ok,
+                    none_ret = strip(arm["body"])
+            steps.append((s["pat"].get("name"), some_ok, none_ret))
+            used.add(idx_)
+        elif s.get("els") and next_call(s.get("init")) and some_binding(s["pat"]):
+            rets_ = [n_ for n_ in hir.walk(s["els"]) if n_.get("k") == "Ret"]
+            raw_pending = (some_binding(s["pat"]), rets_[0] if len(rets_) == 1 else None)
+            used.add(idx_)
+        elif raw_pending and init is not None and validated_param(init, "try_validate_01") == raw_pending[0] and s["pat"].get("k") == "Binding":
+            steps.append((s["pat"]["name"], True, raw_pending[1]))
+            raw_pending = None
+            used.add(idx_)
+    if raw_pending:
+        steps.append((raw_pending[0], False, raw_pending[1]))        # extracted but never validated
+    # other `let`s are named temporaries: read through (`let t = Self::new_triple(p, d, q); Ok(t)`)
+    temps = hir.let_env({"k": "Block", "stmts": [s for i_, s in enumerate(all_lets) if i_ not in used], "expr": None})
+    nexts = hir.find_calls(it["body"], "next")
+    ctx.ob("V-CTOR", "%s::try_from_floats reads at most %d items" % (tname, maxn), len(nexts) == maxn and len(steps) == maxn, "%d next() calls" % len(nexts))
+    bound = []
+    for k, (name_, some_ok, r) in enumerate(steps):
+        none_ok = False
+        if r is not None and r["k"] == "Ret":
+            c = strip(r["e"])
+            if c["k"] == "Call" and hir.callee_name(c) == "Ok":
+                inner = strip(c["args"][0])
+                none_ok = inner["k"] == "Call" and hir.callee_name(inner) == NAMES[k] and [field_path(a) for a in inner["args"]] == [(x,) for x in bound]
+        ctx.ob("V-CTOR", "%s::try_from_floats step %d" % (tname, k), some_ok and none_ok,
                "item %d must be validated before use and its absence must return %s(%s)" % (k, NAMES[k], bound))
-        bound.append(s["pat"].get("name"))
+        bound.append(name_)
     tail = hir.through_lets(hir.last_expr(it["body"]), temps)
     ok = tail["k"] == "Call" and hir.callee_name(tail) == "Ok"
     if ok:
